@@ -27,6 +27,7 @@ import (
 type Case struct {
 	Op         ops.WOp     `json:"op"`
 	Prepare    bool        `json:"prepare_stmt"`
+	Prior      int         `json:"prior,omitempty"`       // derived from the same handle and abandoned before the operation: 1 Session{SkipDefaultTransaction}, 2 ToSQL, 3 Session{DryRun}, 4 Session{NewDB, SkipHooks, SkipDefaultTransaction}
 	HookWrites bool        `json:"hook_writes,omitempty"` // before-hooks write a marker row through the *gorm.DB they are given
 	ErrClass   string      `json:"err_class,omitempty"`   // injected errors wrap this well-known error (deadline, canceled, txdone, eof)
 	PoolShim   bool        `json:"pool_shim"`             // gorm is opened on a ConnPool wrapper (ConnPoolBeginner path) instead of *sql.DB
@@ -59,6 +60,9 @@ func (Prop) Gen(r *core.Rand, tier string) interface{} {
 		c.ErrClass = r.Pick(simdrv.Classes)
 	}
 	c.HookWrites = r.Chance(30)
+	if r.Chance(25) {
+		c.Prior = r.Range(1, 4)
+	}
 	return c
 }
 
@@ -81,6 +85,13 @@ func (Prop) Shrink(ci interface{}) []interface{} {
 	if c.Prepare {
 		v := *c
 		v.Prepare = false
+		v.Only = nil
+		v.MaxSites = 0
+		out = append(out, &v)
+	}
+	if c.Prior != 0 {
+		v := *c
+		v.Prior = 0
 		v.Only = nil
 		v.MaxSites = 0
 		out = append(out, &v)
@@ -117,8 +128,27 @@ func (p Prop) exec(c *Case, f *ops.Fault) (*ops.SingleRun, error) {
 		o.WrapPool = func(db *sql.DB, drv *simdrv.Sim) gorm.ConnPool { return simpool.New(db, drv) }
 	}
 	return ops.RunSingle(o, f, c.hookAction(), func(e *env.Env) ops.Result {
+		c.derivePrior(e.DB)
 		return c.Op.Exec(e.DB)
 	})
+}
+
+// prior derives other sessions from the handle the operation is about to use
+// and abandons them: their options are theirs alone.
+func (c *Case) derivePrior(db *gorm.DB) {
+	switch c.Prior {
+	case 1:
+		_ = db.Session(&gorm.Session{SkipDefaultTransaction: true})
+	case 2:
+		_ = db.ToSQL(func(tx *gorm.DB) *gorm.DB {
+			var n []fam.Note
+			return tx.Where("rank > ?", 0).Find(&n)
+		})
+	case 3:
+		_ = db.Session(&gorm.Session{DryRun: true})
+	case 4:
+		_ = db.Session(&gorm.Session{NewDB: true, SkipHooks: true, SkipDefaultTransaction: true})
+	}
 }
 
 // hookAction: with HookWrites, every before-hook writes a marker row through
@@ -164,6 +194,7 @@ func (p Prop) execCtx(c *Case, cf *ops.CancelFault) (*ops.SingleRun, []string, e
 			pool.Cancel = cancel
 			pool.CancelAt = first + cf.K
 		}
+		c.derivePrior(e.DB)
 		res := c.Op.Exec(e.DB.WithContext(ctx))
 		pool.CancelAt = -1
 		return res
